@@ -13,7 +13,7 @@ from vt import core
 
 
 # ------------------------------------------------------------------------------------------------ E2
-def seg_graph(make, feed, canon, observe, stream: bytes, max_nodes=200000):
+def seg_graph(make, feed, canon, observe, stream: bytes, max_nodes=200000, expect=None, max_bad=3):
     """make() -> fresh object; feed(obj, bytes) -> None or raises; canon(obj) -> hashable state; observe(obj) ->
     tuple of what has been delivered so far (part of the node identity and what the oracle reads).
 
@@ -36,11 +36,18 @@ def seg_graph(make, feed, canon, observe, stream: bytes, max_nodes=200000):
     errors = []
     terminal = {}
     observations = {}
+    bad = 0
     while frontier:
         key = frontier.popleft()
         off = key[0]
         path = paths[key]
         observations.setdefault(key[2], path)
+        if expect is not None and (key[2] != expect[: len(key[2])] or (off == n and key[2] != expect)):
+            bad += 1  # already a violation: the caller reports it; a broken parser can blow the graph up, so stop early
+        if bad + len(errors) >= max_bad or (len(paths) >= max_nodes and expect is not None):
+            if off == n:
+                terminal.setdefault(key[2], path)
+            break
         if off == n:
             terminal.setdefault(key[2], path)
             continue
@@ -56,10 +63,12 @@ def seg_graph(make, feed, canon, observe, stream: bytes, max_nodes=200000):
             nk = (off + k, canon(obj), observe(obj))
             if nk not in paths:
                 if len(paths) >= max_nodes:
+                    if expect is not None:
+                        break
                     raise core.HarnessError("seg_graph: node cap hit")
                 paths[nk] = path + (k,)
                 frontier.append(nk)
-    return dict(nodes=len(paths), transitions=transitions, terminal=terminal, errors=errors, observations=observations)
+    return dict(nodes=len(paths), transitions=transitions, terminal=terminal, errors=errors, observations=observations, capped=len(paths) >= max_nodes, stopped_early=bad > 0)
 
 
 # ------------------------------------------------------------------------------------------------ E1
